@@ -3,10 +3,12 @@
 HARNESSES = {
     "codec": dict(src=["harness/h_codec.cpp"], flavour="asan"),
     "hist": dict(src=["harness/h_hist.cpp"], flavour="asan"),
+    "reread": dict(src=["harness/h_reread.cpp"], flavour="asan"),
 }
 
 ENGINE_TEXT = {
     "codec": "rapidcheck + exhaustive choice-tree enumeration on CdnsEncoder/CdnsDecoder, ASan+UBSan",
+    "reread": "rapidcheck on CdnsReader over truncated / re-encoded / generated files, ASan+UBSan",
     "hist": "rapidcheck model-based API histories on CdnsExporter/CdnsBlock with reference exporter model and independent reader, ASan+UBSan",
 }
 NOT_APPLICABLE = {}
@@ -101,5 +103,58 @@ PROPS = {
         technique="property-based testing: stateful histories (rapidcheck) with snapshot + conservation oracle",
         assumptions=[],
         jobs=[dict(harness="hist", prop="hist_c13", cases=(8000, 200000), size=(40, 120))],
+    ),
+
+    "C05": dict(
+        rule="(a) decoder level, exhaustive: streams of exactly n bytes for every n in {0..40} u {k*65535+d: k=1..3, d=-40..40} x 12 operations at the end x "
+             "{istringstream, ifstream, unopened ifstream, ifstream on a missing file} x {one-byte items, string+items}; after the n-th byte every operation must throw "
+             "CdnsDecoderEnd (unreadable streams: any std::exception, never a value). (b) file level: generated valid files (padded so that |f|, a block end or the first block "
+             "falls within +-3 of a multiple of 65535 in 3/4 of the cases), prefix lengths exhaustive within +-3 of every block boundary / window multiple / 0 / |f| plus "
+             "sampled positions; the reader must return exactly the blocks wholly contained (identical dump to the full file) and then throw CdnsDecoderEnd. "
+             "Non-trivial: n==0 or n within 40 of a window multiple (a); 0<n<|f| near a window multiple or block boundary or file with >=2 blocks (b).",
+        level_text="exhaustive over the stated stream lengths/operations/stream kinds; generated files x exhaustive boundary prefixes; block offsets from an independent parse",
+        level_note="CdnsDecoder::BUFFER_SIZE taken from the header; CdnsDecoderEnd is the library's documented end-of-input type",
+        technique="property-based testing: exhaustive small-scope enumeration + generated files with exhaustive boundary truncation",
+        assumptions=[],
+        jobs=[
+            dict(harness="codec", prop="c05_stream", kind="enum"),
+            dict(harness="reread", prop="c05_file", cases=(640, 24000), size=(30, 80)),
+        ],
+    ),
+    "C07": dict(
+        rule="items from the full RFC 8949 grammar (all major types, nested containers, tags, floats, simple values) emitted by the reference encoder under a random rewrite plan "
+             "(wider heads, indefinite containers, chunked strings), placed so that the first byte lies at every offset -12..12 around the first two window multiples (exhaustive sweep "
+             "for 14 shapes) and at random offsets, followed by a sentinel. Oracle: typed read returns the generator's value; skip_item()/typed read is followed by read_unsigned()==sentinel "
+             "and then end of input. Non-trivial: non-preferred/indefinite/nested/tagged/float item or item straddling a window boundary.",
+        level_text="generated well-formed items vs ground truth, exhaustive offset sweep around the window boundary",
+        level_note="ground truth comes from the generator; encodings are re-checked by the independent strict parser before use",
+        technique="property-based testing: grammar-based generation with ground truth + exhaustive boundary sweep",
+        assumptions=["read_negative/read_integer only asked for int64-representable values"],
+        jobs=[
+            dict(harness="codec", prop="c07_sweep", kind="enum"),
+            dict(harness="codec", prop="c07_item", cases=(40000, 1600000), size=(30, 80)),
+        ],
+    ),
+    "C08": dict(
+        rule="valid file from the exporter (generated content, several parameter sets, all item kinds) re-emitted under a generated rewrite plan at a random subset of nodes: "
+             "definite<->indefinite containers, chunked strings (text at UTF-8 boundaries), widened heads, permuted map members, unknown integer keys (|key|>=64) with arbitrary "
+             "well-formed values (tags, floats, nesting to depth 30). Oracle (metamorphic): canonical dump of CdnsReader output identical for both files; the independent reader must "
+             "also interpret both identically (guards the rewriter). Non-trivial: >=1 rewrite applied and >=1 block.",
+        level_text="metamorphic relation over generated files and generated semantics-preserving rewrites",
+        level_note="only RFC-equivalent rewrites: array order kept, no duplicate keys, no tags around known members",
+        technique="property-based testing: metamorphic testing with structure-aware rewriter",
+        assumptions=[],
+        jobs=[dict(harness="reread", prop="c08_rewrite", cases=(12000, 400000), size=(30, 80))],
+    ),
+    "C09": dict(
+        rule="generated FilePreamble values (versions 0..255, private version present/absent, 1..8 sets, every subset of optional members, full-width integers, arbitrary opcode/rr-type "
+             "lists, UTF-8 text, collection parameters absent/empty/partial/full) written through CdnsExporter and through FilePreamble::write, read back by CdnsReader / "
+             "FilePreamble::read (also into a previously used object) and by the independent parser; member-for-member equality. Non-trivial: >=2 sets or an optional member set "
+             "or private version absent.",
+        level_text="round trip over generated preambles, library reader and independent reader",
+        level_note="list members of CollectionParameters are plain vectors in the API: empty == absent",
+        technique="property-based testing: round-trip with independent-reader differential",
+        assumptions=[],
+        jobs=[dict(harness="reread", prop="c09_preamble", cases=(40000, 1000000), size=(30, 30))],
     ),
 }
